@@ -641,6 +641,19 @@ func runAuth(accounts map[string]string, setHeader func(*http.Request)) (string,
 			oracle = append(oracle, fmt.Sprintf("C20 basic auth: reached through HandleContext the gated handler ran %d times with status %d; asked directly ran=%v status=%d", runs, w4.Code, ran, w.Code))
 		}
 	}
+	// the gate used as a plain http.Handler (rux.HandlerFunc has ServeHTTP) and mounted back with rux.WrapH: the status it
+	// decides on reaches the client as for the direct request (a status-only 403 is committed when the inner call ends)
+	{
+		r5 := rux.New()
+		r5.GET("/p", func(c *rux.Context) {}, rux.WrapH(rux.HandlerFunc(handlers.HTTPBasicAuth(accounts))))
+		rq := httptest.NewRequest("GET", "/p", nil)
+		setHeader(rq)
+		w5 := httptest.NewRecorder()
+		r5.ServeHTTP(w5, rq)
+		if w5.Code != w.Code {
+			oracle = append(oracle, fmt.Sprintf("C20 basic auth: the gate mounted as an http.Handler (WrapH(HandlerFunc(gate))) answers status %d, the gate used directly %d", w5.Code, w.Code))
+		}
+	}
 	// the account list is the caller's map: a gate that was built on an empty map which the application fills afterwards
 	// (accounts loaded at start-up, after the routes were declared) gives the verdict of the filled list
 	if len(accounts) > 0 {
